@@ -41,6 +41,11 @@ def call(ex, e, st):
             return speclang.SPEC[name](ex, e, st)
         if name in st.env and isinstance(st.env[name], Obj) and st.env[name].cls == "Monitor":
             return monitor_call(ex, e, st)
+        if name in ("min", "max") and len(e.args) == 2 and not e.keywords:
+            mod = (ex.c.get("function") or ex.qualname).split(".")[1] if (ex.c.get("function") or ex.qualname).startswith("dsw.") else None
+            if name not in ex.registry.numpy_names.get(mod, set()):          # the builtin, not numpy's (whose second argument is an axis)
+                a_, b_ = toint(ex.ev(e.args[0], st)), toint(ex.ev(e.args[1], st))
+                return z3.If(a_ <= b_, a_, b_) if name == "min" else z3.If(a_ >= b_, a_, b_)
         if name in BUILTINS:
             return BUILTINS[name](ex, e, st)
         from pyvc import library
